@@ -385,9 +385,14 @@ def foreground : List DAct → List Lsm.Act
 /-- a history of the DKV system with its compaction commits erased -/
 def dropCompactions (as : List Lsm.Act) : List Lsm.Act := as.filter (fun a => !isCompact a)
 
-/-- sequence numbers separate the containers in time: everything in an older level-0 table or memtable is numbered
-below everything in a newer one (level 0 in insertion order, then the memtables oldest first) -/
+/-- what the sequence numbers give the picker: level-0 tables sharing a key are age-ordered in insertion order;
+the memtables are separated in time (everything in an older one is numbered below everything in a newer one); and
+every memtable entry is numbered above every entry of every level-0 table. Holds in every state reached from the
+empty database, and also right after a restore from several checkpoints (the instance continues above the largest
+loaded sequence number; level 0 by `composite_level0`). -/
 def ChronSep (s : Lsm.State) : Prop :=
-  ((s.levels.headD []).map (·.run) ++ s.mems).Pairwise (fun older newer => ∀ e ∈ older, ∀ e' ∈ newer, e.seq < e'.seq)
+  L0KeyAgeOrdered s.levels ∧
+  s.mems.Pairwise (fun older newer => ∀ e ∈ older, ∀ e' ∈ newer, e.seq < e'.seq) ∧
+  (∀ t ∈ s.levels.headD [], ∀ r ∈ s.mems, ∀ e ∈ t.run, ∀ e' ∈ r, e.seq < e'.seq)
 
 end Rxn.Compaction
